@@ -125,12 +125,25 @@ func tag(ps ...string) []string { return ps }
 func argSlice[T any](vals []T) []T {
 	s := make([]T, len(vals), len(vals)+3)
 	copy(s, vals)
+	lastArgSlice, lastArgOrig = s, append([]T{}, vals...)
 	return s
 }
+
+// the most recent caller-owned argument slice and what it held when it was handed out
+var lastArgSlice, lastArgOrig any
 
 // scribbleCheck: after a call that received the caller-owned slice arg, the caller
 // overwrites it up to its capacity; the container must not notice (C16).
 func scribbleCheck[T comparable](arg []T, poison T, values func() []T, cname, opname string) *Viol {
+	// the slice is the caller's: the call works on its own copy and leaves the caller's elements alone
+	if ls, ok := lastArgSlice.([]T); ok && len(ls) == len(arg) && len(arg) > 0 && &ls[0] == &arg[0] {
+		orig := lastArgOrig.([]T)
+		for i := range arg {
+			if !eqv(arg[i], orig[i]) {
+				return viol(tag("C16"), "invariant", "%s.%s changed the caller's argument slice: passed %v, afterwards it holds %v", cname, opname, orig, arg)
+			}
+		}
+	}
 	pre := values()
 	scribble(arg, poison)
 	post := values()
